@@ -1,5 +1,5 @@
 """C10 — the reported LSM shape is always well formed."""
-from gen import lib, vfn, dbh
+from gen import lib, vfn, dbh, codec
 
 PROP_FILE = "props/C10.v"
 RULE = ("dbhist: histories with frequent flushes, compact_range calls and reopens (options changed, "
@@ -22,7 +22,8 @@ def gen_cases(tier, rng):
 
 def suites(tier, seed, rng):
     return [dbh.DbSuite(dbh.corpus("C10") + dbh.corpus("C01") + gen_cases(tier, rng)),
-            vfn.VfnSuite("vfn", vfn.gen(tier, rng, {"apply"}), lambda i, s, c: True)]
+            vfn.VfnSuite("vfn", vfn.gen(tier, rng, {"apply"}), lambda i, s, c: True),
+            codec.CodecSuite("codec", codec.gen(tier, rng, ("V",)), lambda i, s, c: True)]
 
 
 def replay_suites(rp):
@@ -44,4 +45,6 @@ def nontrivial(suite, case):
 def classify(suite, case):
     if suite == "vfn":
         return "vfn:" + case.split(" ")[2]
+    if suite == "codec":
+        return "codec:manifest"
     return "dbhist:reopens=%d" % min(case.count(" O"), 5)
